@@ -281,7 +281,11 @@ def history(sx, ntrans, retries, A, with_main, stop_at, fw="twisted"):
 
     rr = 0   # round-robin cursor
     for a in range(A):
+        inflight = False
         if stop_at == a:
+            # on asyncio a zero-delay retry is already under way when the harness gets to call stop() (the loop ran the sleep(0) task and
+            # create_connection() is pending): that attempt began BEFORE stop() - only attempts begun afterwards are "after stop()"
+            inflight = env.any_pending()
             comp.stop()
             env.drain()
             finished = finished or "stopped"
@@ -306,7 +310,7 @@ def history(sx, ntrans, retries, A, with_main, stop_at, fw="twisted"):
                 rr = j + 1
                 break
         sx.check(exp is not None, "no-attempt-when-every-transport-is-exhausted-or-failed", info=hinfo)
-        sx.check(finished is None, "no-attempt-after-the-component-finished-or-was-stopped", info=hinfo)
+        sx.check(finished is None or inflight, "no-attempt-after-the-component-finished-or-was-stopped", info=hinfo)
         if exp is None:
             break
         sx.check(ti == exp, "transports-tried-round-robin", info=dict(hinfo, got=ti, want=exp))
@@ -321,6 +325,8 @@ def history(sx, ntrans, retries, A, with_main, stop_at, fw="twisted"):
         # "hs-fail-early" (refusal processed before the connect result reaches the component) exists on asyncio only: create_connection() hands
         # its result over through a future, a loop turn after connection_made(); a Twisted endpoint fires its Deferred inside connectionMade
         out = OUTCOMES[sx.choice("outcome%d" % a, len(OUTCOMES) if fw == "asyncio" else len(OUTCOMES) - 1)]
+        if finished and out == "stop-while-joining":
+            out = "abort"          # stop() has been called already (a second stop() is not among the histories of the property)
         hist.append((ti, out))
         nf = len(fatal_flags)
         if out == "refused":
